@@ -498,6 +498,22 @@ template<typename E> static bool dispatch(const std::string& cfg, uint64_t seed,
 	return false;
 }
 
+// maps with DIFFERENT key / value categories (X: nothrow-move key + copy-only value, Y: copy-only key + nothrow-move value)
+template<typename K, typename V> static bool dispatch_mixed(const std::string& cfg, uint64_t seed, size_t nops, bool complete)
+{
+	(void)cfg; (void)seed; (void)nops; (void)complete;
+#if PART == 0 || PART == 3
+	if (cfg == "hmap_limp4") { typedef HMapMaker<K, V, momo::HashBucketLimP4<>> Mk; go<MapAd<K, V, typename Mk::Cont, Mk>>(seed, nops, complete); return true; }
+	if (cfg == "hmap_open8") { typedef HMapMaker<K, V, momo::HashBucketOpen8> Mk; go<MapAd<K, V, typename Mk::Cont, Mk>>(seed, nops, complete); return true; }
+	if (cfg == "hmmap") { typedef HMMapMaker<K, V> Mk; go<MultiMapAd<K, V, typename Mk::Cont, Mk>>(seed, nops, complete); return true; }
+#endif
+#if PART == 0 || PART == 5
+	if (cfg == "tmap_n4") { typedef TMapMaker<K, V, Node4> Mk; go<MapAd<K, V, typename Mk::Cont, Mk>>(seed, nops, complete); return true; }
+	if (cfg == "tmap_n32") { typedef TMapMaker<K, V, Node32> Mk; go<MapAd<K, V, typename Mk::Cont, Mk>>(seed, nops, complete); return true; }
+#endif
+	return false;
+}
+
 int main()
 {
 	signal(SIGABRT, on_abort);
@@ -517,6 +533,8 @@ int main()
 			if (cat == "N") done = dispatch<kit::ElemNtm>(cfg, seed, nops, complete);
 			else if (cat == "C") done = dispatch<kit::ElemCpo>(cfg, seed, nops, complete);
 			else if (cat == "T") done = dispatch<kit::ElemThm>(cfg, seed, nops, complete);
+			else if (cat == "X") done = dispatch_mixed<kit::ElemNtm, kit::ElemCpo>(cfg, seed, nops, complete);
+			else if (cat == "Y") done = dispatch_mixed<kit::ElemCpo, kit::ElemNtm>(cfg, seed, nops, complete);
 		}
 		if (!done) puts("?");
 		fflush(stdout);
